@@ -388,32 +388,35 @@ def respace (ts : List Tok) (space : Bool) : List Tok :=
 
 def strTok (s : List UInt8) : Tok := ⟨.TSTRINGLIT, some s, false, false⟩
 
-section bodies
-variable (rec : Call → St → Res)
+/-- one pass through `ctxnext` from the label `again:`; `again st'` = the `goto again` of an
+empty argument -/
+inductive CtxStep where
+  | done (r : Res)
+  | again (st : St)
 
-def ctxnextBody (st0 : St) : Res :=
+def ctxnextStep (st0 : St) : CtxStep :=
   let p := popDone st0.ctx st0.macros st0.depth
   let st : St := { st0 with ctx := p.1, macros := p.2.1, depth := p.2.2 }
   match st.ctx with
-  | [] => .ok { st with rb := false }
+  | [] => .done (.ok { st with rb := false })
   | f :: rest =>
     match f.toks with
-    | [] => .error .assertFail
+    | [] => .done (.error .assertFail)
     | t :: more =>
-      let plain : Res := .ok { st with ctx := { f with toks := more } :: rest, rb := true, rt := t }
+      let plain : CtxStep := .done (.ok { st with ctx := { f with toks := more } :: rest, rb := true, rt := t })
       match f.mac.bind (macroget st.macros) with
       | none => plain
       | some m =>
         if ¬ m.func then plain
         else if t.kind = .THASH then
           match more with
-          | [] => .error .assertFail
+          | [] => .done (.error .assertFail)
           | t2 :: more2 =>
             match macroparam m.params t2 with
-            | none => .error .assertFail
+            | none => .done (.error .assertFail)
             | some i =>
-              .ok { st with ctx := ⟨[], none⟩ :: { f with toks := more2 } :: rest, rb := true,
-                            rt := { (m.args.getD i default).str with space := t.space } }
+              .done (.ok { st with ctx := ⟨[], none⟩ :: { f with toks := more2 } :: rest, rb := true,
+                                   rt := { (m.args.getD i default).str with space := t.space } })
         else if t.kind = .TIDENT then
           match macroparam m.params t with
           | none => plain
@@ -421,11 +424,19 @@ def ctxnextBody (st0 : St) : Res :=
             match (m.args.getD i default).toks with
             | [] =>
               let st1 : St := { st with ctx := { f with toks := more } :: rest }
-              rec .ctxnext (if t.space then st1.ev .emptySpace else st1)
+              .again (if t.space then st1.ev .emptySpace else st1)
             | a :: as =>
-              .ok { st with ctx := ⟨as, none⟩ :: { f with toks := more } :: rest, rb := true,
-                            rt := { a with space := t.space } }
+              .done (.ok { st with ctx := ⟨as, none⟩ :: { f with toks := more } :: rest, rb := true,
+                                   rt := { a with space := t.space } })
         else plain
+
+section bodies
+variable (rec : Call → St → Res)
+
+def ctxnextBody (st0 : St) : Res :=
+  match ctxnextStep st0 with
+  | .done r => r
+  | .again st1 => rec .ctxnext st1
 
 def rawnextBody (st : St) : Res :=
   match rec .ctxnext st with
